@@ -27,7 +27,7 @@ type vfC04Inst struct {
 }
 
 // expected final verdict for a message given which validators apply
-func (in *vfC04Inst) expected(local bool) string {
+func (in *vfC04Inst) expected(local bool, label string) string {
 	res := "A"
 	worse := func(a, b string) string { // Reject > Throttled > Ignore > Accept
 		rank := map[string]int{"A": 0, "I": 1, "T": 2, "R": 3}
@@ -76,7 +76,17 @@ func (in *vfC04Inst) expected(local bool) string {
 	}
 	for _, v := range in.vals {
 		if !v.Inline {
-			res = worse(res, verdictOf(v))
+			x := verdictOf(v)
+			// an asynchronous validator that was never invoked for this message although the asynchronous stage
+			// was reached was throttled (its own concurrency limit or the global one): "validation is throttled"
+			in.g.vmu.Lock()
+			calls := in.g.valCalls[v.Name+"|"+label]
+			in.g.vmu.Unlock()
+			if calls == 0 {
+				x = "T"
+				in.count("validator_throttled_for_message")
+			}
+			res = worse(res, x)
 		}
 	}
 	return res
@@ -119,7 +129,7 @@ func (in *vfC04Inst) Apply(ev string, judge bool) string {
 			in.pushed[f[2]] = append(in.pushed[f[2]], f[1])
 		}
 	case "lpub":
-		want := in.expected(true)
+		want := in.expected(true, "local:"+f[2])
 		err := g.lpubErr[f[2]]
 		label := "local:" + f[2]
 		sent := len(vfMsgRecipients(g, label)) > 0
@@ -154,12 +164,13 @@ func (in *vfC04Inst) Apply(ev string, judge bool) string {
 	for _, p := range g.pendingVals() {
 		pending[p[strings.IndexByte(p, '|')+1:]] = true
 	}
+	wants := map[string]string{}
 	for _, label := range vfSortedKeys(in.pushed) {
 		fw := in.pushed[label]
 		if len(fw) == 0 || pending[label] {
 			continue
 		}
-		want := in.expected(false)
+		want := in.expected(false, label)
 		if !in.decided[label] {
 			in.decided[label] = true
 			in.state["decided:"+label] = want
@@ -195,25 +206,37 @@ func (in *vfC04Inst) Apply(ev string, judge bool) string {
 				in.bad("c04:dropped-but-forwarded:"+want, "message %s must be dropped (%s) but was forwarded", label, want)
 			}
 		}
-		// penalties (gossipsub with scored topic): Reject penalises every forwarder once, everything else nobody
-		if g.cfg.Scoring {
+		wants[label] = want
+	}
+	// penalties (gossipsub with scored topic): Reject penalises every forwarder (once per copy it sent at most),
+	// anything else nobody; a peer's counter is the sum over the messages decided so far
+	if g.cfg.Scoring {
+		lo, hi := map[string]float64{}, map[string]float64{}
+		peersSeen := map[string]bool{}
+		for label, want := range wants {
 			copies := map[string]float64{}
-			for _, p := range fw {
+			for _, p := range in.pushed[label] {
 				copies[p]++
+				peersSeen[p] = true
 			}
-			for p, n := range copies {
-				got := post.Invalid[p] - in.invalid0[p]
-				if _, tracked := post.Penalty[p]; !tracked {
-					continue
+			if want == "R" {
+				for p, n := range copies {
+					lo[p]++
+					hi[p] += n
 				}
-				// Reject: every forwarder is penalised (once per copy it sent at most); anything else: nobody
-				lo, hi := 0.0, 0.0
-				if want == "R" {
-					lo, hi = 1, n
+			}
+		}
+		for _, p := range vfSortedKeys(peersSeen) {
+			if _, tracked := post.Penalty[p]; !tracked {
+				continue
+			}
+			got := post.Invalid[p] - in.invalid0[p]
+			if got < lo[p] || got > hi[p] {
+				kind := "R"
+				if got > hi[p] {
+					kind = "not-R"
 				}
-				if got < lo || got > hi {
-					in.bad("c04:penalty:"+want, "message %s (verdict %s) forwarded by %v: invalid-delivery counter of %s changed by %v, want between %v and %v", label, want, fw, p, got, lo, hi)
-				}
+				in.bad("c04:penalty:"+kind, "invalid-delivery counter of %s changed by %v, want between %v and %v (decided messages and verdicts: %v, copies pushed: %v)", p, got, lo[p], hi[p], wants, in.pushed)
 			}
 		}
 	}
@@ -307,6 +330,48 @@ func vfC04Scenarios(thorough bool) []*vfGWScenario {
 	return out
 }
 
+// vfC04ThrottleScenarios: two messages and a validator (or the whole asynchronous stage) with room for one: the
+// second message finds the slot taken while the first is parked.
+func vfC04ThrottleScenarios(thorough bool) []*vfGWScenario {
+	var out []*vfGWScenario
+	msgs := map[string]vfMsgSpec{"m1": {Topic: "t", Author: "x", Seq: 1, Size: 8}, "m2": {Topic: "t", Author: "x", Seq: 2, Size: 8}}
+	peers := []vfPeerCfg{{Name: "a", Proto: "v11", IP: "10.0.0.1"}, {Name: "b", Proto: "v11", IP: "10.0.0.2"}, {Name: "c", Proto: "v11", IP: "10.0.0.3"}}
+	type shape struct {
+		name   string
+		global int
+		vals   []vfValCfg
+	}
+	var shapes []shape
+	for _, other := range []string{"", "A", "R", "I", "U"} {
+		for _, slow := range []string{"A", "R"} {
+			vals := []vfValCfg{{Name: "V2", Topic: "t", Gated: true, Verdict: slow, Throttle: 1}}
+			if other != "" {
+				vals = append([]vfValCfg{{Name: "V1", Gated: true, Verdict: other}}, vals...)
+			}
+			shapes = append(shapes, shape{fmt.Sprintf("validator-limit[%s,%s]", other, slow), 0, vals})
+			// the same validators, the limit on the whole asynchronous stage instead
+			vals2 := append([]vfValCfg{}, vals...)
+			vals2[len(vals2)-1].Throttle = 0
+			shapes = append(shapes, shape{fmt.Sprintf("global-limit[%s,%s]", other, slow), 1, vals2})
+		}
+	}
+	for _, sh := range shapes {
+		alphabet := []string{"pub:a:m1", "pub:b:m2", "pub:b:m1", "lpub:t:p1"}
+		for _, v := range sh.vals {
+			alphabet = append(alphabet, "vrel:"+v.Name+":m1:"+v.Verdict, "vrel:"+v.Name+":m2:"+v.Verdict)
+		}
+		depth := 5
+		if thorough {
+			depth = 7
+		}
+		out = append(out, &vfGWScenario{Name: "throttle-" + sh.name,
+			Cfg: vfGWCfg{Router: "gossip", Peers: peers, Topics: []string{"t"}, Params: "d2", Scoring: true, ScoreTopics: true, SeenTTL: 3600, Validators: sh.vals, ValThrottle: sh.global,
+				Prefix: []string{"conn:a", "conn:b", "conn:c", "sub:a:t", "sub:b:t", "sub:c:t", "join:t"}},
+			Alphabet: alphabet, Msgs: msgs, Depth: depth})
+	}
+	return out
+}
+
 func vfC04Mk(x *vfExec, sc *vfGWScenario) vfInstance {
 	base := newVfGWInst(x, sc, nil)
 	in := &vfC04Inst{vfGWInst: base, vals: sc.Cfg.Validators, pushed: map[string][]string{}, decided: map[string]bool{}, invalid0: map[string]float64{}, released: map[string]map[string]bool{}}
@@ -319,7 +384,7 @@ func vfC04Mk(x *vfExec, sc *vfGWScenario) vfInstance {
 func init() {
 	vfRegister("C04", &vfCheck{
 		run: func(r *vfRun) {
-			scs := vfC04Scenarios(r.thorough)
+			scs := append(vfC04Scenarios(r.thorough), vfC04ThrottleScenarios(r.thorough)...)
 			r.res.Bounds["validator_configurations"] = len(scs)
 			vfRunGWScenarios(r, scs, vfC04Mk)
 		},
